@@ -32,6 +32,16 @@ class Replayer(object):
         self.cf = ec.CurveFp(self.p, self.a, self.b, 1)
         gen = ec.PointJacobi(self.cf, self.G[0], self.G[1], 1, self.n, generator=True)
         self.curve = curves.Curve("toy%d" % self.n, self.cf, gen, (1, 3, 9999, 2, self.n), None)
+        # DER / PEM loaders find the toy curve by its OID; every behaviour gets its own curve object (Curve objects
+        # compare by identity), so the entry of the previous behaviour is replaced
+        curves.curves[:] = [c for c in curves.curves if c.oid != self.curve.oid] + [self.curve]
+        self.curves_mod = curves
+        import hashlib
+        self.sha = hashlib.sha256
+        blen = self.curve.baselen
+        # three digests: shorter than, as long as, and longer than the order (truncation is allowed on both sides)
+        self.digests = [b"\x07" * max(1, blen - 1) if blen > 1 else b"\x03", bytes([0x9c, 0x41, 0xe7][:blen] or b"\x9c"),
+                        b"\xb5\x02\x7f\x10\xee"]
         probe = ec.PointJacobi(self.cf, self.G[0], self.G[1], 1)
         self.cname = [k for k, v in vars(probe).items() if isinstance(v, tuple)][0]
         self.digest = b"\x5a\x01\xc3"
@@ -47,8 +57,71 @@ class Replayer(object):
         z = 1 if k % 2 == 0 else self.rnd.randrange(2, self.p)
         return self.ec.PointJacobi(self.cf, x * z * z % self.p, y * z * z * z % self.p, z, order, generator=(kind == "G"))
 
+    def fresh_curve(self):
+        """a curve object nothing has used yet (its base point has no table): for freshly constructed keys"""
+        cf = self.ec.CurveFp(self.p, self.a, self.b, 1)
+        gen = self.ec.PointJacobi(cf, self.G[0], self.G[1], 1, self.n, generator=True)
+        return self.curves_mod.Curve("toy%d" % self.n, cf, gen, (1, 3, 9999, 2, self.n), None)
+
+    def fresh_sk(self, v):
+        return self.SK.from_secret_exponent(v, self.fresh_curve())
+
+    def fresh_vk(self, v):
+        c = self.fresh_curve()
+        x, y = self.aff(v)
+        return self.VK.from_public_point(self.ec.PointJacobi(c.curve, x, y, 1, self.n), c)
+
+    def do_sign(self, sk, e, k):
+        """-> ('sig', bytes) or ('exc', class name)"""
+        try:
+            if k == 0:
+                return ("sig", sk.sign_digest_deterministic(self.digests[e], hashfunc=self.sha, allow_truncate=True))
+            return ("sig", sk.sign_digest(self.digests[e], k=k, allow_truncate=True))
+        except Exception as ex:  # noqa  (RSZeroError is a legitimate outcome for some nonces)
+            return ("exc", type(ex).__name__)
+
+    SKFMT = ["string", "der", "der-pkcs8", "pem", "pem-pkcs8"]
+
+    def sk_serial(self, sk, f):
+        if f == 0:
+            return sk.to_string()
+        if f == 1:
+            return sk.to_der()
+        if f == 2:
+            return sk.to_der(format="pkcs8")
+        if f == 3:
+            return sk.to_pem()
+        return sk.to_pem(format="pkcs8")
+
+    def sk_load(self, blob, f):
+        if f == 0:
+            return self.SK.from_string(blob, self.curve)
+        if f in (1, 2):
+            return self.SK.from_der(blob)
+        return self.SK.from_pem(blob)
+
+    def vk_reload(self, vk, f):
+        """None when the combination is outside the documented domain (compressed string over a one-byte field)"""
+        if f < 4:
+            if ENC[f] == "compressed" and self.p < 256:
+                return None
+            return self.VK.from_string(vk.to_string(ENC[f]), self.curve)
+        if f == 4:
+            return self.VK.from_der(vk.to_der())
+        if f == 5:
+            return self.VK.from_pem(vk.to_pem())
+        return self.VK.from_der(vk.to_der("compressed"))
+
     def denote(self, obj):
         ec = self.ec
+        if isinstance(obj, self.SK):
+            if obj.privkey.secret_multiplier % self.n == 0:
+                return None
+            if obj.privkey.public_key is not obj.verifying_key.pubkey and \
+                    obj.privkey.public_key.point != obj.verifying_key.pubkey.point:
+                return "inconsistent signing key"
+            pt = self.denote(obj.verifying_key)
+            return pt if pt == self.aff(obj.privkey.secret_multiplier) else ("public point %r does not belong to the private scalar %d" % (pt, obj.privkey.secret_multiplier))
         if isinstance(obj, self.VK):
             obj = obj.pubkey.point
         if isinstance(obj, ec.PointJacobi):
@@ -90,7 +163,7 @@ class Replayer(object):
             # (equally valid) class for some result, an operation the spec offers may not exist on it - skip the rest of this
             # behaviour instead of reporting the harness's own AttributeError
             need = {"to_affine": "to_affine", "muladd": "mul_add", "precompute": "precompute", "verify": "verify_digest",
-                    "to_string": "to_string"}.get(op)
+                    "to_string": "to_string", "sign": "sign_digest", "vkof": "verifying_key"}.get(op)
             if need and A is not None and not hasattr(A, need):
                 self.drift = getattr(self, "drift", 0) + 1
                 break
@@ -176,7 +249,65 @@ class Replayer(object):
                     fresh = self.VK.from_public_point(self.new(vals[i - 1], "J", 0), self.curve)
                     if A.to_string(ENC[k]) != fresh.to_string(ENC[k]) or A.to_der() != fresh.to_der():
                         bad(si, "key %d serialises differently from a fresh key of the same value (%s)" % (i, ENC[k]))
+                elif op == "newsk":
+                    objs.append(self.SK.from_secret_exponent(res, self.curve)), vals.append(res), kinds.append("S")
+                elif op == "vkof":
+                    objs.append(A.verifying_key), vals.append(res), kinds.append("K")
+                elif op == "sign":
+                    got, want = self.do_sign(A, k, m), self.do_sign(self.fresh_sk(vals[i - 1]), k, m)
+                    if got != want:
+                        bad(si, "signing key %d (value %d), digest %s, %s: %s, a freshly constructed key of the same value: %s"
+                            % (i, vals[i - 1], self.digests[k].hex(), "RFC 6979 nonce" if m == 0 else "nonce %d" % m,
+                               got[1].hex() if got[0] == "sig" else got[1], want[1].hex() if want[0] == "sig" else want[1]))
+                    elif got[0] == "sig":
+                        try:
+                            ok = A.verifying_key.verify_digest(got[1], self.digests[k], allow_truncate=True)
+                        except self.BadSig:
+                            ok = False
+                        if ok is not True:
+                            bad(si, "the verifying key of signing key %d (value %d) rejects the key's own signature" % (i, vals[i - 1]))
+                elif op == "sk_serial":
+                    got, want = self.sk_serial(A, k), self.sk_serial(self.fresh_sk(vals[i - 1]), k)
+                    if got != want:
+                        bad(si, "signing key %d (value %d) serialises (%s) differently from a fresh key of the same value"
+                            % (i, vals[i - 1], self.SKFMT[k]))
+                elif op == "sk_reload":
+                    R = self.sk_load(self.sk_serial(A, k), k)
+                    if R != A or not (R == A) or R.to_der() != A.to_der():
+                        bad(si, "signing key %d re-loaded from its %s form differs from the original" % (i, self.SKFMT[k]))
+                    objs.append(R), vals.append(res), kinds.append("S")
+                elif op == "k_reload":
+                    R = self.vk_reload(A, k)
+                    if R is None:
+                        R = self.fresh_vk(vals[i - 1])
+                    elif R != A or R.to_string() != A.to_string():
+                        bad(si, "verifying key %d re-loaded from its own serialisation (form %d) differs from the original" % (i, k))
+                    objs.append(R), vals.append(res), kinds.append("K")
+                elif op == "verify_by":
+                    made = self.do_sign(B, k, 0)
+                    if made[0] != "sig":
+                        bad(si, "deterministic signing with key %d raised %s" % (j, made[1]))
+                    else:
+                        def outcome2(key):
+                            try:
+                                return bool(key.verify_digest(made[1], self.digests[k], allow_truncate=True))
+                            except self.BadSig:
+                                return False
+                        ok, fresh_ok = outcome2(A), outcome2(self.fresh_vk(vals[i - 1]))
+                        if ok != fresh_ok:
+                            bad(si, "key %d (value %d) %s a signature made by signing key %d (value %d); a fresh key of the same "
+                                "value %s it" % (i, vals[i - 1], "accepts" if ok else "rejects", j, vals[j - 1],
+                                                 "accepts" if fresh_ok else "rejects"))
+                        elif res == 1 and not ok:
+                            bad(si, "key %d (value %d) rejects a genuine signature of signing key %d of the same value" % (i, vals[i - 1], j))
                 elif op == "keyeq":
+                    if A.curve is not B.curve:
+                        # an unpickled key carries its own copy of the Curve object, and Curve objects compare by identity:
+                        # key == key is then False whatever the values.  The property fixes equality of POINTS and of the
+                        # Public_key / Private_key objects (its anchors), not of the key wrappers across curve-object copies,
+                        # so the comparison is made on those (recorded as a note, DESIGN section 9 F14)
+                        self.notes = getattr(self, "notes", 0) + 1
+                        A, B = (A.pubkey, B.pubkey) if isinstance(A, self.VK) else (A.privkey, B.privkey)
                     if bool(A == B) != bool(res) or bool(A != B) == bool(res):
                         bad(si, "keys %d and %d: == gives %r for values %d, %d" % (i, j, A == B, vals[i - 1], vals[j - 1]))
             except BaseException as e:  # noqa
